@@ -732,3 +732,17 @@ package rlwe
 //@   trusted at call sites outside this package's own contracts: an encryption of zero into the receiver (verified per receiver kind under encryptZeroSk#ciphertext, encryptZeroSkFromC1(QP), encryptZeroPkNoP); the receiver must be an actual object, not a nil pointer in an interface
 //@   requires !isnil(unbox(ct))
 //@   assigns
+
+// ==== property C04 ("any power-of-two digit decomposition, moduli of unequal bit-sizes"): the digits of a
+// ==== modulus cover every one of its bits.  bitlen(x) is the bit length of x (what math/bits.Len64 returns:
+// ==== 2^(bitlen-1) <= x < 2^bitlen).  Finding F50: the count was taken from round(log2(q)), one short for a
+// ==== prime just above a power of two.
+//@ func Parameters.BaseTwoDecompositionVectorSize
+//@   property C04
+//@   requires 0 <= Base2Decomposition && Base2Decomposition <= 64
+//@   ensures len(base) == len(p.qi)
+//@   ensures implies(Base2Decomposition > 0 && levelP <= 0, forall(k, 0, len(base), base[k] * Base2Decomposition >= bitlen(p.qi[k])))
+//@   ensures implies(Base2Decomposition == 0 || levelP > 0, forall(k, 0, len(base), base[k] == 1))
+//@   loop 0 invariant 0 <= i && i <= len(base) && len(base) == len(p.qi) && forall(k, 0, i, base[k] == 1)
+//@   loop 1 invariant 0 <= i && i <= len(base) && len(base) == len(p.qi) && forall(k, 0, i, base[k] * Base2Decomposition >= bitlen(p.qi[k]))
+//@   loop 1 lemma div_ceil(bitlen(p.qi[i - 1]), Base2Decomposition)
